@@ -162,8 +162,56 @@ func consensusBlock(w *world, nc *netCfg, txs []*transaction.Transaction, r *prn
 	return b
 }
 
+// genRound generates the raw transactions of one round against the current state of s.w.
+func genRound(o *hx.Out, r *prng.R, s *scen, senders []*acct, committee *acct, ntx int, bind string) [][]byte {
+	var raws [][]byte
+	height := s.w.bc.BlockHeight()
+	var last *transaction.Transaction
+	for i := 0; i < ntx; i++ {
+		a := senders[r.Intn(len(senders))]
+		signers := []*acct{a}
+		hp := r.Chance(1, 10)
+		if hp {
+			signers = append(signers, committee)
+		} else if r.Chance(1, 6) {
+			b := senders[r.Intn(len(senders))]
+			if b != a {
+				signers = append(signers, b)
+			}
+		}
+		pad := []int{0, 20, 200, 1000, r.Range(0, 3000)}[r.Intn(5)]
+		c := s.newCand(r, signers, pad)
+		c.tx.SystemFee = int64(r.Range(0, 3)) * 1_0000_0000 / int64(r.Range(1, 4))
+		if bind == "sysfee" {
+			c.tx.SystemFee = int64(r.Range(0, 12)) * 1_0000_0000
+		}
+		c.tx.ValidUntilBlock = height + uint32(r.Range(1, 6))
+		if hp {
+			c.tx.Attributes = append(c.tx.Attributes, transaction.Attribute{Type: transaction.HighPriority})
+		}
+		if last != nil && r.Chance(1, 8) && last.HasSigner(a.hash) {
+			// replaces a pooled transaction of a common signer when it pays more
+			c.tx.Attributes = append(c.tx.Attributes, transaction.Attribute{Type: transaction.ConflictsT, Value: &transaction.Conflicts{Hash: last.Hash()}})
+			o.Count("proposal:tx-with-conflicts")
+		}
+		extra := int64(0)
+		switch r.Intn(4) {
+		case 0:
+			extra = int64(r.Range(0, 1000))
+		case 1:
+			extra = int64(r.Range(0, 5_000_000))
+		case 2:
+			extra = int64(len(c.tx.Script)) * int64(r.Range(0, 2000))
+		}
+		c.finish(extra)
+		raws = append(raws, c.tx.Bytes())
+		last = c.tx
+	}
+	return raws
+}
+
 func runProposal(f *hx.Flags, o *hx.Out) {
-	n := f.N(60, 1500)
+	n := f.N(160, 1500)
 	for k := 0; k < n; k++ {
 		if !f.Want(k) {
 			continue
@@ -183,14 +231,14 @@ func proposalCase(o *hx.Out, k int, r *prng.R) {
 	nc.nVal = []int{1, 1, 4, 4, 7}[r.Intn(5)]
 	nc.committeeKeys = pickKeys(r, nc.nVal)
 	nc.stateRoot = r.Chance(1, 3)
-	if k%2 == 1 && k < 10 {
-		nc.stateRoot = true
-	}
 	if r.Chance(1, 5) {
 		nc.hf = "preFaun"
 	}
 	// which limit binds
 	bind := []string{"count", "size", "sysfee", "none", "size", "mempool"}[r.Intn(6)]
+	if k < 6 {
+		bind = "size"
+	}
 	nc.maxTx = 512
 	nc.maxBlockSize = 2_000_000
 	nc.maxBlockSys = 9000_0000_0000
@@ -205,9 +253,69 @@ func proposalCase(o *hx.Out, k int, r *prng.R) {
 	case "mempool":
 		nc.memPoolSize = r.Range(2, 10)
 	}
+	boundary := bind == "size" && (k < 6 || r.Chance(2, 3))
+	if k < 6 {
+		// corpus: the defect fixed by 2cbe22b (state root not counted when sizing the proposal) lived here
+		nc.stateRoot = true
+	}
 	o.Count("proposal:bind=" + bind)
 	o.Count(fmt.Sprintf("proposal:validators=%d", nc.nVal))
 	o.Count(fmt.Sprintf("proposal:stateroot=%v", nc.stateRoot))
+	// senders and their funding (fixed before any chain exists, so that a chain can be rebuilt identically)
+	nSenders := r.Range(2, 6)
+	ks := pickKeys(r, nSenders+6)
+	var senders []*acct
+	var amounts []int64
+	for i := 0; i < nSenders; i++ {
+		a := singleAcct(fmt.Sprintf("S%d", i), ks[i])
+		if i == 1 {
+			nn := r.Range(2, 5)
+			a = multiAcct("M", r.Range(1, nn), ks[nSenders:nSenders+nn])
+		}
+		senders = append(senders, a)
+		amount := int64(r.Range(5, 400)) * 1_0000_0000
+		if r.Chance(1, 5) {
+			amount = int64(r.Range(1, 30)) * 1000_0000 // poor sender: some of its transactions will not fit
+		}
+		amounts = append(amounts, amount)
+	}
+	ck := nc.committeeKeys
+	committee := multiAcct("committee", smartcontract.GetMajorityHonestNodeCount(len(ck)), ck)
+	fundAll := func(w *world) *block.Block {
+		var fund []*transaction.Transaction
+		for i, a := range senders {
+			fund = append(fund, w.fundTx(a.hash, amounts[i]))
+		}
+		fund = append(fund, w.fundTx(committee.hash, 100_0000_0000))
+		return w.addBlock(fund...)
+	}
+	mkScen := func(w *world) *scen {
+		return &scen{w: w, hf: nc.hf, pol: polSettings{feePerByte: w.bc.FeePerByte(), base: w.bc.GetBaseExecFee(), attrFee: map[transaction.AttrType]int64{}}, accIDs: map[util.Uint160]int{}}
+	}
+	// boundary-directed: measure the pool on a chain without a binding size limit, then set MaxBlockSize
+	// right around the wire size of a block of the first j pool transactions and rebuild.
+	var preRaws [][]byte
+	if boundary {
+		big := *nc
+		big.maxBlockSize = 2_000_000
+		P := newNetWorld(&big)
+		fundAll(P)
+		preRaws = genRound(o, r, mkScen(P), senders, committee, ntx, bind)
+		for _, raw := range preRaws {
+			t, _ := transaction.NewTransactionFromBytes(raw)
+			_ = P.bc.PoolTx(t)
+		}
+		ptxs := P.bc.GetMemPool().GetVerifiedTransactions()
+		if len(ptxs) > 0 {
+			j := r.Range(1, len(ptxs))
+			pb := consensusBlock(P, &big, ptxs[:j], prng.New(1))
+			bw := io.NewBufBinWriter()
+			pb.EncodeBinary(bw.BinWriter)
+			nc.maxBlockSize = uint32(len(bw.Bytes()) + r.Range(-34, 2))
+			o.Count("proposal:boundary-directed")
+		}
+		P.close()
+	}
 	A := newNetWorld(nc)
 	defer A.close()
 	B := newNetWorld(nc)
@@ -221,78 +329,22 @@ func proposalCase(o *hx.Out, k int, r *prng.R) {
 		}
 		return true
 	}
-	// senders
-	nSenders := r.Range(2, 6)
-	ks := pickKeys(r, nSenders+6)
-	var senders []*acct
-	var fund []*transaction.Transaction
-	for i := 0; i < nSenders; i++ {
-		a := singleAcct(fmt.Sprintf("S%d", i), ks[i])
-		if i == 1 {
-			nn := r.Range(2, 5)
-			a = multiAcct("M", r.Range(1, nn), ks[nSenders:nSenders+nn])
-		}
-		senders = append(senders, a)
-		amount := int64(r.Range(5, 400)) * 1_0000_0000
-		if r.Chance(1, 5) {
-			amount = int64(r.Range(1, 30)) * 1000_0000 // poor sender: some of its transactions will not fit
-		}
-		fund = append(fund, A.fundTx(a.hash, amount))
-	}
-	ck := nc.committeeKeys
-	committee := multiAcct("committee", smartcontract.GetMajorityHonestNodeCount(len(ck)), ck)
-	fund = append(fund, A.fundTx(committee.hash, 100_0000_0000))
-	if !send(A.addBlock(fund...), "setup-block") {
+	if !send(fundAll(A), "setup-block") {
 		return
 	}
-	feePerByte := A.bc.FeePerByte()
-	base := A.bc.GetBaseExecFee()
-	s := &scen{w: A, hf: nc.hf, pol: polSettings{feePerByte: feePerByte, base: base, attrFee: map[transaction.AttrType]int64{}}, accIDs: map[util.Uint160]int{}}
+	s := mkScen(A)
 
 	rounds := r.Range(1, 3)
 	for round := 0; round < rounds; round++ {
-		height := A.bc.BlockHeight()
 		mp := A.bc.GetMemPool()
 		var pooled, rejected int
-		var lastPooled *transaction.Transaction
-		for i := 0; i < ntx; i++ {
-			a := senders[r.Intn(len(senders))]
-			signers := []*acct{a}
-			hp := r.Chance(1, 10)
-			if hp {
-				signers = append(signers, committee)
-			} else if r.Chance(1, 6) {
-				b := senders[r.Intn(len(senders))]
-				if b != a {
-					signers = append(signers, b)
-				}
-			}
-			pad := []int{0, 20, 200, 1000, r.Range(0, 3000)}[r.Intn(5)]
-			c := s.newCand(r, signers, pad)
-			c.tx.SystemFee = int64(r.Range(0, 3)) * 1_0000_0000 / int64(r.Range(1, 4))
-			if bind == "sysfee" {
-				c.tx.SystemFee = int64(r.Range(0, 12)) * 1_0000_0000
-			}
-			c.tx.ValidUntilBlock = height + uint32(r.Range(1, 6))
-			if hp {
-				c.tx.Attributes = append(c.tx.Attributes, transaction.Attribute{Type: transaction.HighPriority})
-			}
-			if lastPooled != nil && r.Chance(1, 8) && lastPooled.HasSigner(a.hash) {
-				// replaces a pooled transaction of a common signer when it pays more
-				c.tx.Attributes = append(c.tx.Attributes, transaction.Attribute{Type: transaction.ConflictsT, Value: &transaction.Conflicts{Hash: lastPooled.Hash()}})
-				o.Count("proposal:tx-with-conflicts")
-			}
-			extra := int64(0)
-			switch r.Intn(4) {
-			case 0:
-				extra = int64(r.Range(0, 1000))
-			case 1:
-				extra = int64(r.Range(0, 5_000_000))
-			case 2:
-				extra = int64(len(c.tx.Script)) * int64(r.Range(0, 2000))
-			}
-			c.finish(extra)
-			t, err := transaction.NewTransactionFromBytes(c.tx.Bytes())
+		raws := preRaws
+		preRaws = nil
+		if raws == nil {
+			raws = genRound(o, r, s, senders, committee, ntx, bind)
+		}
+		for _, raw := range raws {
+			t, err := transaction.NewTransactionFromBytes(raw)
 			if err != nil {
 				panic(err)
 			}
@@ -301,7 +353,6 @@ func proposalCase(o *hx.Out, k int, r *prng.R) {
 				o.Count("proposal:pooltx:" + classify(err))
 			} else {
 				pooled++
-				lastPooled = t
 			}
 		}
 		o.Add("proposal:pooled", pooled)
@@ -309,11 +360,12 @@ func proposalCase(o *hx.Out, k int, r *prng.R) {
 		picked := A.bc.ApplyPolicyToTxSet(txs)
 
 		// --- model line: the cut ApplyPolicyToTxSet makes -------------------------------------
-		m := smartcontract.GetDefaultHonestNodeCount(nc.nVal)
-		vals, _ := A.bc.GetNextBlockValidators()
-		vscript, _ := smartcontract.CreateDefaultMultiSigRedeemScript(vals)
-		ref := &block.Block{Header: block.Header{Script: transaction.Witness{InvocationScript: make([]byte, 66*m), VerificationScript: vscript}}}
-		overhead := ref.GetExpectedBlockSizeWithoutTransactions(0) - 1
+		// size of a block without transactions, measured on the wire (not with the function under test):
+		// an empty block signed by the validators, minus the one-byte transaction count
+		eb := consensusBlock(A, nc, nil, prng.New(2))
+		ebw := io.NewBufBinWriter()
+		eb.EncodeBinary(ebw.BinWriter)
+		overhead := len(ebw.Bytes()) - 1
 		var sb strings.Builder
 		fmt.Fprintf(&sb, "pack %d %d %d %d %d", bcfg.MaxTransactionsPerBlock, bcfg.MaxBlockSize, bcfg.MaxBlockSystemFee, overhead, len(txs))
 		for _, t := range txs {
